@@ -549,8 +549,9 @@ class Array(Environment):
                 continue
 
             if tok == '@':
+                between = tex.readArgument()
                 if output:
-                    output[-1].between = tex.readArgument()
+                    output[-1].between = between
                 continue
 
             if tok == '*':
